@@ -59,7 +59,12 @@ def run_history(rep):
     sched.merge_parts(rep, parts)
     rep.count('evaluations', rep.coverage.get('executions', 0))
     rep.count('distinct_nontrivial', rep.coverage.get('distinct_outcomes', 0))
-    rep.set('traces_validated_against_impl', 0)
+    from .. import conform
+    j1 = [s for s in menu(rep.tier) if s['name'].split('/')[-2] == 'j1']
+    conform.j1_conformance(rep, j1[rep.seed % 3::3] if rep.tier != 'thorough'
+                           else j1)
+    rep.set('traces_validated_against_impl',
+            rep.coverage.get('traces_validated_against_impl', 0))
     rep.set('history_rule',
             'history part: 7 scenario families with sharing mutators '
             '(let substitution, variable elimination, constants built from '
